@@ -76,6 +76,15 @@ def judge(c, case, must, why, impl, life, obs, where, stats):
     """P-monitors on one concrete observation"""
     got = obs["got"]
     base, dl = delta(case)
+    # wall-clock robustness: a run that stalled between building the token and verifying it moves the time
+    # classes (the spec's offsets tolerate 120 s for the decided classes); such observations are not judged
+    stall = obs.get("stall_s") or 0
+    sensitive = case.get("exp") in ("soon", "lee") or case.get("nbf") in ("lee", "notyet")
+    if sensitive and stall > 60:
+        stats["stalled_skipped"] = stats.get("stalled_skipped", 0) + 1
+        return
+    if sensitive and stall > 10:
+        impl = None
     rep = {"case": case, "must": must, "why": why, "token": obs.get("token"), "observed": obs, "where": where}
     stats["calls"] += 1
     if got == "panic":
